@@ -105,8 +105,10 @@ func (rt *RoundTripper) cacheResponse(req *http.Request, resp *http.Response) {
 	}
 
 	// an Expires value, which is not a valid date, especially the value "0", means, the response is
-	// already expired (RFC 7234, section 5.3). It is not the same as the absence of that header.
-	if value := resp.Header.Get("Expires"); expires.IsZero() && len(value) != 0 {
+	// already expired (RFC 7234, section 5.3). It is not the same as the absence of that header, so
+	// a lifetime derived from the Last-Modified header does not apply either. Only a max-age
+	// directive takes precedence.
+	if value := resp.Header.Get("Expires"); directives.MaxAge == -1 && len(value) != 0 {
 		if _, err = http.ParseTime(value); err != nil {
 			return
 		}
